@@ -199,7 +199,6 @@ let handle (toks : string list) : string =
                             Some (nth_obs toks j)) in
                        let known = (match f, m with
                            | AStdDev, _ -> Some "stddev_is_sample"
-                           | _, MExpr when two_args f && arithmetic sh -> Some "two_arg_expr_arg_lost"
                            | _, MExpr when keeps_null f -> Some "expr_null_not_skipped"
                            | _ -> None) in
                        match judge name f known o (Some (spec_batch f m sc)) (List.nth mds b) with
